@@ -71,7 +71,7 @@ func vxCompareImages(before, after []vxKV) {
 }
 
 func VxC04LegacyUpdateRevert() {
-	vx.Bound("legacy backend; block 0: deploy contract A, write one slot and the nonce (values symbolic, non-zero); block 1: sections {storage (written slot, never-written slot), nonce, replaced class, deployment of B} each present or absent, every value symbolic (zero and unchanged values included); revert of block 1. Addresses/slots fixed.")
+	vx.Bound("legacy backend; block 0: deploy contract A, write one slot and the nonce (values symbolic, non-zero); block 1: sections {storage (written slot, never-written slot), nonce, replaced class, deployment of B with or without a nonce for B} each present or absent, every value symbolic (zero and unchanged values included); revert of block 1. Addresses/slots fixed.")
 	vx.CollisionFree()
 	d := memory.New()
 	txn := d.NewIndexedBatch()
@@ -114,6 +114,9 @@ func VxC04LegacyUpdateRevert() {
 	}
 	if vx.Bool("hasDeployed") {
 		diff1.DeployedContracts[*a2] = vxFeltIn("deployedclass")
+		if vx.Bool("deployedNonce") { // a deploy-account transaction also bumps the new account's nonce
+			diff1.Nonces[*a2] = vxFeltIn("nonceB")
+		}
 	}
 	su1 := &core.StateUpdate{OldRoot: &r0, StateDiff: &diff1}
 	uerr := s.Update(&core.Header{Number: 1}, su1, nil, true)
